@@ -147,9 +147,11 @@ def r1(ctx, F):
                             allowed.add((b, t))
                     if "None" in names.values() and not any(names.get(v) == "None" for v in info["targets"]):
                         allowed.add((b, info["otherwise"]))
-            isn = [c for c in f.calls if re.search(r"Option::<T>::is_none$", c.name)]
-            for c in isn:
-                allowed |= bool_call_edges(F, f, c, "true")
+            for c in f.calls:
+                if re.search(r"Option::<T>::is_none$", c.name):
+                    allowed |= bool_call_edges(F, f, c, "true")
+                elif re.search(r"Option::<T>::is_some$", c.name):
+                    allowed |= bool_call_edges(F, f, c, "false")
             r = f.reach(0, cut_blocks={c.bb for c in ins}, cut_edges=allowed)
             good = not (set(f.returns()) & r)
         ctx.check(good, "C13.R1", "add_reference-inserts:" + f.qpath.split("heap_type::")[1],
